@@ -40,6 +40,21 @@ CLAIMED = {
         technique="static analysis: finite-domain abstract interpretation of flag typestate over clang CFG; setter-invalidation "
         "must-pass-through with idiom ordering",
     ),
+    "C18": dict(
+        text="Static analysis of the OpenMP configuration of the sources (-fopenmp -DSTIR_OPENMP; the baseline build has OpenMP off, so no test "
+        "executes this code). Decides, for every schedule at once: the double-checked lazy initialisation protocol of the five geometry tables "
+        "(atomic unlocked read, re-check + build inside a named critical, flag published after the last table write, on every exit, by the "
+        "builder only); the system-matrix cache is touched only under the omp lock of its own (view,segment) and locks are released on all "
+        "paths; every direct write to shared storage in each of the 17 parallel regions and in the projectors' entry points is synchronised, "
+        "per-thread, a reduction or indexed by the loop's own variable; every non-const call on a shared object in a region is synchronised "
+        "or a reviewed thread-safe entry point; stream/buffer accesses of the file and memory ProjData back-ends are inside their named "
+        "critical; scatter-cache cells are accessed atomically. NOT decided: numerical equality up to reassociation, memory-model adequacy of "
+        "omp atomic, thread-safety inside callees beyond the reviewed table.",
+        technique="static analysis: OpenMP-aware AST/CFG rules (typestate of double-checked locking, lock pairing by must-pass-through, "
+        "shared-write discipline with data-sharing classification)",
+        note=COMMON_NOTE + " Analysed configuration: openmp (the OpenMP constructs only exist in the AST with -fopenmp -DSTIR_OPENMP). The table "
+        "REVIEWED_CALLEES of thread-safe entry points is part of the trusted base.",
+    ),
 }
 
 NOT_APPLICABLE = {
